@@ -130,6 +130,10 @@ def mentions : Cpt K → List Ix
   | .TR n1 n2 m _ => [.node n1, .node n2, .br m]
   | .Y n1 n2 _ => [.node n1, .node n2]
   | .Open n1 n2 => [.node n1, .node n2]
+  | .TPA n1 n2 n3 n4 m _ _ _ _ => [.node n1, .node n2, .node n3, .node n4, .br m]
+  | .TPY n1 n2 n3 n4 _ _ _ _ => [.node n1, .node n2, .node n3, .node n4]
+  | .SP n1 n2 n3 n4 m _ _ _ => [.node n1, .node n2, .node n3, .node n4, .br m]
+  | .HY n1 n2 m n3 n4 mc _ _ _ => [.node n1, .node n2, .node n3, .node n4, .br m, .br mc]
 
 /-- the rest of the circuit only reads retained unknowns -/
 def SupportedIn (R : Ix → Prop) (rest : List (Cpt K)) : Prop :=
@@ -152,6 +156,10 @@ def Cpt.mapNodes (ρ : Nat → Nat) : Cpt K → Cpt K
   | .TR n1 n2 m a => .TR (ρ n1) (ρ n2) m a
   | .Y n1 n2 y => .Y (ρ n1) (ρ n2) y
   | .Open n1 n2 => .Open (ρ n1) (ρ n2)
+  | .TPA n1 n2 n3 n4 m a b c d => .TPA (ρ n1) (ρ n2) (ρ n3) (ρ n4) m a b c d
+  | .TPY n1 n2 n3 n4 a b c d => .TPY (ρ n1) (ρ n2) (ρ n3) (ρ n4) a b c d
+  | .SP n1 n2 n3 n4 m a b c => .SP (ρ n1) (ρ n2) (ρ n3) (ρ n4) m a b c
+  | .HY n1 n2 m n3 n4 mc a b c => .HY (ρ n1) (ρ n2) m (ρ n3) (ρ n4) mc a b c
 
 /-- the assignment seen through a node renaming -/
 def pullback (ρ : Nat → Nat) (x : Ix → K) : Ix → K
